@@ -107,6 +107,10 @@ PENDING = {
     "setitem:whole-array-dask-mask&value=1-element-array:values": "x[mask] = da.from_array([5]) assigns only part of the selection - silent",
     "setitem:whole-array-dask-mask&value=1-element-array:ValueError@array/core.py:blockdims_from_blockshape": "same family",
     "setitem:whole-array-dask-mask&value=1-element-array:TypeError@array/reshape.py:reshape_rechunk": "same family (zero-length axis)",
+    "setitem:whole-array-dask-mask&zero-size-chunk:wrong-result": "x[mask] = 0 on chunks ((2, 0, 1),): computed shape differs from the array's shape",
+    "setitem:whole-array-dask-mask&zero-size-chunk:raises": "same family: Missing dependency / KeyError when the graph is evaluated",
+    "setitem:int+int-list&value=array:ValueError@array/slicing.py:setitem": "same mechanism as the int+int-list TypeError (wrong part of the value reaches the block)",
+    "setitem:whole-array-dask-mask&value=1-element-array:IndexError@array/reshape.py:reshape_rechunk": "same family (zero-length axes)",
     "setitem:tuple-wrapped-whole-array-dask-mask:IndexError@array/slicing.py:parse_assignment_indices": "x[(mask,)] = 0 raises where x[mask] = 0 works",
     "setitem:tuple-wrapped-whole-array-dask-mask:values": "same, 1-d case",
 }
@@ -406,6 +410,9 @@ def run_case(case, ctx):
         # empty negative-step slices
         vt = "array-with-axis-longer-than-1" if max(out.vshape) > 1 else "zero-size-array"
         label, detail = "setitem:empty-selection&value=%s:%s" % (vt, out.symptom), {}
+    elif IX.zero_chunk_inside(chunks) and where_path(enc, shape) and bare and probe_without_zero_chunks(case, out) != out.symptom:
+        label = "setitem:whole-array-dask-mask&zero-size-chunk:" + ("wrong-result" if out.symptom in MISMATCH_SYMPTOMS else "raises")
+        detail = {}
     elif where_path(enc, shape) and bare:
         # direct mechanism predicates for the where(mask, value, x) path of Array.__setitem__
         own = any((e.get("c") and tuple(tuple(c) for c in e["c"]) != chunks) if e["k"] == "mask" else
@@ -429,6 +436,16 @@ def run_case(case, ctx):
         ctx.violation(label, out.msg, traceback=tb, **detail)
     else:
         ctx.violation(label, out.msg, **detail)
+
+
+def probe_without_zero_chunks(case, out):
+    """Symptom of the same case with the zero-size chunks removed from the array's chunking (None = no failure)."""
+    chunks = tuple((tuple(c for c in cs if c) or (0,)) for cs in case["chunks"])
+    try:
+        o = evaluate(case["shape"], chunks, case["dtype"], case["index"], bool(case.get("bare")), case["vmode"], case["vkind"], case["vseed"])
+    except Exception:  # noqa: BLE001
+        return None
+    return o.symptom if o.status in ("exc", "mismatch") else None
 
 
 def classify(shape, chunks, dtype, enc, bare, vmode, vkind, vseed, sym):
@@ -458,4 +475,10 @@ def classify(shape, chunks, dtype, enc, bare, vmode, vkind, vseed, sym):
     vtok = "scalar" if vm in SCALARLIKE else "array"
     feat = IX.label_features(enc_m, shape_m, chunks_m)
     label = "setitem:%s&value=%s:%s" % (feat, vtok, sym_m)
+    if IX.zero_chunk_inside(chunks_m):
+        toks = IX.tokens(enc_m, shape_m)
+        fam = ("dask-index-array" if any(t.startswith("dask-") for t in toks) else
+               "int-or-bool-array" if any(t.startswith(("int-list", "int-array", "bool-list", "bool-array")) for t in toks) else
+               "slice" if any(t.startswith("slice") for t in toks) else "basic-index")
+        label = "setitem:%s&zero-size-chunk:%s" % (fam, "wrong-result" if sym_m in MISMATCH_SYMPTOMS else "raises")
     return label, {"minimal": {"index": IX.show(enc_m), "shape": list(shape_m), "chunks": [list(c) for c in chunks_m], "vmode": vm, "vkind": vk}}
